@@ -26,6 +26,13 @@ Theorem C15_json_roundtrip : forall d s, load d = Ok s -> attrs s = d.
 Proof. exact load_attrs. Qed.
 Print Assumptions C15_json_roundtrip.
 
+(* what [mirrors] says at a node (and, by its definition, recursively at every child): the
+   attributes ARE the sub-document and the class is the one the keywords determine *)
+Theorem C15_mirror_meaning : forall s d,
+  mirrors s d = true -> attrs s = d /\ kind_of s = shape_of_keywords d.
+Proof. exact mirrors_meaning. Qed.
+Print Assumptions C15_mirror_meaning.
+
 (* on the grammar the loader either succeeds or reports ValueError, nothing else *)
 Theorem C15_grammar_total : forall d, wf d = true -> (exists s, load d = Ok s) \/ load d = Err ValueError.
 Proof. exact load_total. Qed.
@@ -43,6 +50,12 @@ Theorem C15_refs : forall d s,
   refs_resolved d s = true /\ map fst (stargets s) = refnames d.
 Proof. exact load_refs. Qed.
 Print Assumptions C15_refs.
+
+(* the path [find_anchor] yields is the path of a sub-schema of the document bearing that anchor *)
+Theorem C15_find_anchor_bears : forall d x t,
+  find_anchor d x = Some t -> exists sc k, In (t, sc, k) (all_nodes d) /\ k_anchor sc = Some x.
+Proof. exact find_anchor_bears. Qed.
+Print Assumptions C15_find_anchor_bears.
 
 (* a dangling reference is a ValueError *)
 Theorem C15_dangling : forall d,
